@@ -152,7 +152,25 @@ func xmlOf(apps []gApp) string {
 			if x.vendor != 0 {
 				fmt.Fprintf(&b, " vendor-id=\"%d\"", x.vendor)
 			}
-			fmt.Fprintf(&b, ">\n<data type=\"%s\"/>\n</avp>\n", x.tyName)
+			// `Type#k`: k enumeration items (Enumerated) or k rules (any other type)
+			ty, k := x.tyName, 0
+			if i := strings.Index(ty, "#"); i >= 0 {
+				k, _ = strconv.Atoi(ty[i+1:])
+				ty = ty[:i]
+			}
+			if k == 0 {
+				fmt.Fprintf(&b, ">\n<data type=\"%s\"/>\n</avp>\n", ty)
+			} else {
+				fmt.Fprintf(&b, ">\n<data type=\"%s\">\n", ty)
+				for j := 0; j < k; j++ {
+					if ty == "Enumerated" {
+						fmt.Fprintf(&b, "<item code=\"%d\" name=\"ITEM_%d\"/>\n", j, j)
+					} else {
+						fmt.Fprintf(&b, "<rule avp=\"Origin-Host\" required=\"false\" max=\"%d\"/>\n", j+1)
+					}
+				}
+				b.WriteString("</data>\n</avp>\n")
+			}
 		}
 		b.WriteString("</application>\n")
 	}
@@ -188,7 +206,7 @@ func showDictAVP(a *dict.AVP) string {
 	if a.App != nil {
 		app = a.App.ID
 	}
-	return fmt.Sprintf("(%d,%d,%s,%d,%d)", app, a.Code, a.Name, a.VendorID, int(a.Data.Type))
+	return fmt.Sprintf("(%d,%d,%s,%d,%d,%d)", app, a.Code, a.Name, a.VendorID, int(a.Data.Type), len(a.Data.Enum)+len(a.Data.Rule))
 }
 
 func evalQueryGo(p *dict.Parser, q string) string {
@@ -393,7 +411,30 @@ func genDictSet(r *RNG) [][]gApp {
 				if r.Chance(4) {
 					ty = "NoSuchType"
 				}
+				if (ty == "Enumerated" || ty == "Grouped") && r.Chance(60) {
+					ty += fmt.Sprintf("#%d", 1+r.Intn(3))
+				}
 				app.avps = append(app.avps, gAVP{name, code, []uint32{0, 0, 10415, 99, 4294967295}[r.Intn(5)], []string{"M", "", "M,V"}[r.Intn(3)], ty})
+			}
+			// a later file repeats a definition of an earlier one and only extends its item / rule list
+			// (how an operator's dictionary extends an enumeration of the one it builds on)
+			if len(files) > 0 && r.Chance(35) {
+				prev := files[r.Intn(len(files))]
+				if len(prev) > 0 {
+					pa := prev[r.Intn(len(prev))]
+					if len(pa.avps) > 0 {
+						x := pa.avps[r.Intn(len(pa.avps))]
+						base := x.tyName
+						if i := strings.Index(base, "#"); i >= 0 {
+							base = base[:i]
+						}
+						if base != "NoSuchType" {
+							x.tyName = fmt.Sprintf("%s#%d", base, 4+r.Intn(3))
+							app.id, app.typ = pa.id, pa.typ
+							app.avps = append(app.avps, x)
+						}
+					}
+				}
 			}
 			apps = append(apps, app)
 		}
